@@ -270,7 +270,7 @@ def convertSlice : P String := do
   let t ← node
   let A0 ← atomsP
   -- display, visibility, unlikely and maybe are computed by the model from the attributes in the tree
-  let A := deriveAtomsFull t A0
+  let A := deriveAtomsAll t A0
   let evs := convert { skipUnlikely := sk } A [] false t
   let td := textData t
   let nd := fun i => match td.find? (fun p => p.1 == i) with | some p => p.2 | none => ""
